@@ -173,21 +173,24 @@ Lemma grease_only_set c f st id : grease_only c (set_grease c f st id).
 Proof. exists f, st, id. reflexivity. Qed.
 
 Lemma grease_finish_only c w wr r c' w' wr' :
-  grease_finish (c, w, wr) = (r, (c', w', wr')) -> grease_only c c' /\ r = GReady.
+  grease_finish (c, w, wr) = (r, (c', w', wr')) -> grease_only c c'.
 Proof.
-  unfold grease_finish. destruct (c_gstep c); intros H; inversion H; subst; split; auto using grease_only_set.
+  unfold grease_finish. destruct (c_gstep c); try (intros H; inversion H; subst; apply grease_only_set).
+  destruct (assoc (c_gid c) (w_finp w)) as [[|p]|]; intros H; inversion H; subst;
+    auto using grease_only_set, grease_only_refl.
 Qed.
 
 Lemma grease_ready_only c w wr r c' w' wr' :
   grease_ready (c, w, wr) = (r, (c', w', wr')) -> grease_only c c'.
 Proof.
   unfold grease_ready. destruct (c_gstep c);
-    try (intros H; apply grease_finish_only in H; tauto).
+    try (intros H; apply grease_finish_only in H; exact H).
   destruct (poll_ready (c_gid c) wr w) as [[x wr1] w1]. destruct x.
-  - intros H. apply grease_finish_only in H. destruct H as [H _].
+  - intros H. apply grease_finish_only in H.
     eapply grease_only_trans; [apply grease_only_set|exact H].
   - intros H; inversion H; subst. apply grease_only_refl.
   - intros H; inversion H; subst. apply grease_only_refl.
+  - intros H; inversion H; subst. apply grease_only_set.
 Qed.
 
 Lemma grease_send_only c w wr r c' w' wr' :
@@ -297,8 +300,12 @@ Proof.
   destruct (poll_accept_recv wt (c, w, wr)) as [r1 [[c1 w1] wr1]] eqn:Hpar.
   apply poll_accept_recv_frame in Hpar. destruct Hpar as (Hfp & -> & Hni).
   apply (footprint_weaken par_cause_code pc_cause_code) in Hfp; [|intros z code Hz; left; exact Hz].
-  destruct r1 as [u| |e|n| |]; try congruence;
-    try (inversion H; subst; apply PcNoFrame; [exact Hfp|discriminate|discriminate]).
+  destruct r1 as [u| |e|n| |].
+  2:{ inversion H; subst; apply PcNoFrame; [exact Hfp|discriminate|discriminate]. }
+  2:{ inversion H; subst; apply PcNoFrame; [exact Hfp|discriminate|discriminate]. }
+  2:{ inversion H; subst; apply PcNoFrame; [exact Hfp|discriminate|discriminate]. }
+  2:{ exfalso; apply Hni; reflexivity. }
+  2:{ inversion H; subst; apply PcNoFrame; [exact Hfp|discriminate|discriminate]. }
   cbn [err_of] in Hfp.
   assert (Hc1 : c_err c1 = None) by (destruct Hfp as (_ & _ & _ & H4); auto).
   destruct (c_control c1) as [[id fs]|] eqn:Hctl.
@@ -690,7 +697,7 @@ Definition drv_inv (d : drv) : Prop :=
   (d_res d <> RIndet -> ctl_inv (d_role d) (conn_of d)) /\
   (forall e, d_res d = RErr e -> c_err (conn_of d) = Some e) /\
   ((forall e, d_res d <> RErr e) -> d_res d <> RIndet -> c_err (conn_of d) = None) /\
-  (d_ph d <> PhDone -> d_res d = RPending).
+  (d_ph d <> PhDone -> d_res d <> RIndet /\ forall e, d_res d <> RErr e).
 
 Lemma finish_fields d ph c w wr r :
   d_role (finish d ph (c, w, wr) r) = d_role d /\ conn_of (finish d ph (c, w, wr) r) = c /\
@@ -701,22 +708,35 @@ Proof. repeat split. Qed.
 (* a state in which the driver may run: invariant, no error so far *)
 Definition runnable (r : role) (c : conn) : Prop := ctl_inv r c /\ c_err c = None.
 
+Lemma drv_inv_going d ph c w wr r :
+  r = RPending \/ r = RNone -> runnable (d_role d) c -> drv_inv (finish d ph (c, w, wr) r).
+Proof.
+  intros Hr [Hi He]. unfold drv_inv. destruct (finish_fields d ph c w wr r) as (-> & -> & -> & -> & _).
+  split; [auto|]. split; [intros e Hx; destruct Hr; congruence|]. split; [auto|].
+  intros _. split; [destruct Hr; congruence|intros e; destruct Hr; congruence].
+Qed.
 Lemma drv_inv_pending d ph c w wr :
   runnable (d_role d) c -> drv_inv (finish d ph (c, w, wr) RPending).
+Proof. apply drv_inv_going. auto. Qed.
+
+Lemma drv_inv_stopped d c w wr r :
+  r <> RIndet -> (forall e, r <> RErr e) -> runnable (d_role d) c -> drv_inv (finish d PhDone (c, w, wr) r).
 Proof.
-  intros [Hi He]. unfold drv_inv. destruct (finish_fields d ph c w wr RPending) as (-> & -> & -> & -> & _).
-  repeat split; auto; discriminate.
+  intros H1 H2 [Hi He]. unfold drv_inv. destruct (finish_fields d PhDone c w wr r) as (-> & -> & -> & -> & _).
+  split; [auto|]. split; [intros e Hx; exfalso; exact (H2 e Hx)|]. split; [auto|]. congruence.
 Qed.
 
 Lemma run_shutdown_inv d c w wr :
   runnable (d_role d) c -> drv_inv (run_shutdown d (c, w, wr)).
 Proof.
-  intros [Hi He]. unfold run_shutdown.
+  intros Hr. unfold run_shutdown.
   destruct (poll_ready (control_send_id (d_role d)) wr w) as [[x wr1] w1].
-  destruct x; unfold drv_inv;
-    match goal with |- context [finish d ?ph (c, ?w0, ?wr0) ?r] =>
-      destruct (finish_fields d ph c w0 wr0 r) as (-> & -> & -> & -> & _) end;
-    repeat split; auto; try discriminate; congruence.
+  destruct x.
+  - apply drv_inv_going; auto.
+  - apply drv_inv_going; auto.
+  - unfold drv_inv. destruct (finish_fields d PhDone c w1 wr1 RIndet) as (-> & -> & -> & -> & _).
+    repeat split; try congruence; try discriminate.
+  - apply drv_inv_stopped; [discriminate|discriminate|exact Hr].
 Qed.
 
 Lemma set_closing_runnable r c x : c_recv_closing c = x -> runnable r c -> runnable r (set_closing c x).
@@ -766,7 +786,10 @@ Proof.
     destruct Hloop as (Hi1 & _ & Hn1 & _); [discriminate|].
     assert (Hr1 : runnable (d_role d) c1) by (rewrite Hrole; split; [exact Hi1|apply Hn1; discriminate]).
     destruct (c_recv_closing c1) eqn:Hrc.
-    + apply run_shutdown_inv. apply set_closing_runnable; [exact Hrc|exact Hr1].
+    + destruct (c_sent c1).
+      * apply drv_inv_going; auto.
+      * apply run_shutdown_inv. destruct (set_closing_runnable (d_role d) c1 (Some n) Hrc Hr1) as [Ha Hb].
+        split; [|exact Hb]. eapply ctl_inv_ext; [| |exact Ha]; reflexivity.
     + apply drv_inv_pending. exact Hr1.
   - destruct (control_loop (next_control RClient (d_wt d)) (fuel_of (c, w, wr)) (c, w, wr)) as [res [[c1 w1] wr1]] eqn:Hl.
     assert (Hloop : res <> PIndet -> ctl_inv RClient c1 /\ (forall e, res = PErr e -> c_err c1 = Some e) /\
@@ -784,11 +807,13 @@ Proof.
   destruct (poll_ready (control_send_id (d_role d)) wr w) as [[r1 wr1] w1].
   assert (Hindet : forall w0 wr0, drv_inv (finish d PhDone (c, w0, wr0) RIndet)).
   { intros w0 wr0. apply drv_inv_final; congruence. }
-  destruct r1; try apply Hindet;
+  assert (Hout : forall w0 wr0, drv_inv (finish d PhDone (c, w0, wr0) ROutside)).
+  { intros w0 wr0. apply drv_inv_stopped; [discriminate|discriminate|exact Hr]. }
+  destruct r1; try apply Hindet; try apply Hout;
     destruct (poll_ready (decoder_send_id (d_role d)) wr1 w1) as [[r2 wr2] w2];
-    destruct r2; try apply Hindet;
+    destruct r2; try apply Hindet; try apply Hout;
     destruct (poll_ready (encoder_send_id (d_role d)) wr2 w2) as [[r3 wr3] w3];
-    destruct r3; try apply Hindet;
+    destruct r3; try apply Hindet; try apply Hout;
     try (apply drv_inv_pending; exact Hr).
   apply run_driver_inv. exact Hr.
 Qed.
@@ -817,9 +842,9 @@ Proof. intros H. exact H. Qed.
 (* in a phase other than PhDone no error has been recorded and the invariant holds unconditionally *)
 Lemma drv_inv_runnable d : drv_inv d -> d_ph d <> PhDone -> runnable (d_role d) (conn_of d).
 Proof.
-  intros (H1 & H2 & H3 & H4) Hph. specialize (H4 Hph). split.
-  - apply H1. congruence.
-  - apply H3; congruence.
+  intros (H1 & H2 & H3 & H4) Hph. destruct (H4 Hph) as [Ha Hb]. split.
+  - apply H1. exact Ha.
+  - apply H3; assumption.
 Qed.
 
 Lemma drive_inv d : drv_inv d -> drv_inv (drive d).
@@ -837,6 +862,7 @@ Proof.
   - apply run_headers_inv. exact Hrun.
   - apply run_driver_inv. exact Hrun.
   - apply run_shutdown_inv. exact Hrun.
+  - apply run_driver_inv. exact Hrun.
   - exact H1.
 Qed.
 
@@ -864,7 +890,7 @@ Qed.
 Lemma new_drv_inv r g wt cr dflt : drv_inv (new_drv r g wt cr dflt).
 Proof.
   unfold drv_inv, new_drv, conn_of. cbn [d_res d_role d_s d_ph].
-  split; [intros _; apply ctl_inv_new|]. split; [discriminate|]. split; [reflexivity|reflexivity].
+  split; [intros _; apply ctl_inv_new|]. split; [discriminate|]. split; [reflexivity|]. intros _. split; discriminate.
 Qed.
 
 Theorem run_history_inv h : forall d, drv_inv d -> drv_inv (run_history h d).
@@ -886,7 +912,7 @@ Lemma run_driver_cfg d s : same_cfg d (run_driver d s).
 Proof.
   unfold run_driver. destruct (d_role d).
   - destruct (control_loop _ _ s) as [res [[c1 w1] wr1]]. destruct res; try apply same_cfg_finish.
-    destruct (c_recv_closing c1); [apply run_shutdown_cfg|apply same_cfg_finish].
+    destruct (c_recv_closing c1); [destruct (c_sent c1); [apply same_cfg_finish|apply run_shutdown_cfg]|apply same_cfg_finish].
   - destruct (control_loop _ _ s) as [res s1]. destruct res; apply same_cfg_finish.
 Qed.
 Lemma run_headers_cfg d s : same_cfg d (run_headers d s).
@@ -919,6 +945,7 @@ Proof.
   - apply run_headers_cfg.
   - apply run_driver_cfg.
   - apply run_shutdown_cfg.
+  - apply run_driver_cfg.
   - repeat split.
 Qed.
 Lemma step_cfg d e : same_cfg d (step d e).
